@@ -16,6 +16,7 @@ func init() {
 		Explain: "Decides the locking discipline that makes agent log delivery complete and ordered for any number of concurrent writers: GatedWriter's buffer and gate flag are written only with its lock held exclusively and read only with it held; opening the gate and draining the buffer to the underlying writer happen inside one exclusive critical section, so no later line can overtake a buffered one and no buffered append can race with another; the pass-through write happens with the lock held behind flush==true. The log ring (logs, index, handlers) is accessed only under its mutex; a new monitor is registered and replayed (oldest first: index..end when wrapped, then 0..index) inside one critical section that Write also takes. The monitor's own 512-entry channel dropping is not covered.",
 		Run:     runC29,
 		Mutants: []Mutant{
+			{Name: "flush-aborts-on-write-error", File: "cmd/serf/command/agent/gated_writer.go", Func: "func (w *GatedWriter) Flush(", Old: "\t\t_, _ = w.Writer.Write(p)\n", New: "\t\tif _, err := w.Writer.Write(p); err != nil {\n\t\t\tw.flush = false\n\t\t\treturn\n\t\t}\n", Expect: "R1|Flush:clears-buffer-on-every-exit"},
 			{Name: "no-backlog-when-index-zero", File: "cmd/serf/command/agent/log_writer.go", Func: "func (l *logWriter) RegisterHandler(", Old: "\tif l.logs[l.index] != \"\" {\n", New: "\tif l.index == 0 {\n\t\treturn\n\t}\n\tif l.logs[l.index] != \"\" {\n", Expect: "R2|RegisterHandler:replay-unconditional"},
 			{Name: "gated-write-under-rlock", File: "cmd/serf/command/agent/gated_writer.go", Func: "func (w *GatedWriter) Write(", Old: "\tw.lock.Lock()\n\tdefer w.lock.Unlock()\n", New: "\tw.lock.RLock()\n\tdefer w.lock.RUnlock()\n", Expect: "R1"},
 			{Name: "flush-drains-after-unlock", File: "cmd/serf/command/agent/gated_writer.go", Func: "func (w *GatedWriter) Flush(", Old: "\tw.lock.Lock()\n\tdefer w.lock.Unlock()\n\n\tw.flush = true\n", New: "\tw.lock.Lock()\n\tw.flush = true\n\tw.lock.Unlock()\n", Expect: "R1"},
@@ -85,6 +86,20 @@ func runC29(c *an.Ctx) {
 			}
 		}
 		c.Add(open != nil, "R1", "Flush:opens-gate", fl, "Flush opens the gate", "store enumeration")
+		// ... on every way out, and on every way out the buffer is empty: a Flush that can return with the
+		// gate closed or with delivered lines still buffered loses later lines or delivers a prefix twice
+		isOpen := func(in ssa.Instruction) bool {
+			st, ok := in.(*ssa.Store)
+			return ok && an.Path(st.Addr) == "&$0.flush" && an.IsConstBool(st.Val, true)
+		}
+		isClear := func(in ssa.Instruction) bool {
+			st, ok := in.(*ssa.Store)
+			return ok && an.Path(st.Addr) == "&$0.buf" && an.IsNilConst(st.Val)
+		}
+		okOpen, _ := an.MustPass(fl, nil, isOpen)
+		okClear, _ := an.MustPass(fl, nil, isClear)
+		c.Add(okOpen, "R1", "Flush:opens-gate-on-every-exit", fl, "every return of Flush leaves the gate open (also after a write error)", "must-pass from entry to the exits")
+		c.Add(okClear, "R1", "Flush:clears-buffer-on-every-exit", fl, "every return of Flush leaves the buffer empty (no delivered line can be delivered again)", "must-pass from entry to the exits")
 		drains := an.FindInstrs(fl, func(in ssa.Instruction) bool {
 			call, ok := in.(*ssa.Call)
 			if !ok {
